@@ -39,7 +39,7 @@ class ListDomain:
         self.last_ints = {}
         self.list0 = None
         self.nod = {}               # sequence variable -> every node in it is known to hold other data than the searched one
-        self.fn_null = False
+        self.fn_null = None         # None: the callback was not compared with NULL on this path
 
     # -- construction -----------------------------------------------------------------
     def fresh_var(self):
@@ -191,6 +191,10 @@ class ListDomain:
         if name in ("printf",):
             return ("int", 0)
         if name is None and fp == ("fnparam",):
+            if self.fn_null is None:
+                self.fn_null = I.ch.choose(["non-NULL", "NULL"], "callback") == 1
+            if self.fn_null:
+                raise Violation("line %d: the callback is called on a path where it may be NULL" % ln, ln)
             d = args[0]
             if d[0] != "data":
                 raise Violation("line %d: the callback receives %r instead of an item's data" % (ln, d), ln)
